@@ -160,6 +160,8 @@ def run_impl(route: str, rdicts, eps, epsA):
             return first, None, e, None
         Rectangle.set_epsilon(eps, epsA)
         objs = [_mk(d) for d in rdicts]
+        for o, d in zip(objs, rdicts):          # stale roles from an earlier recognition must not survive
+            o.location = next(l for l in Rectangle.StogLocation if LOC[l.name] == d.get("loc", "X"))
         lst = list(objs)
         if route == "module":
             m = Module("M", area=1.0)
@@ -169,6 +171,8 @@ def run_impl(route: str, rdicts, eps, epsA):
                 ret = m.create_stog()
             except AssertionError:
                 return "err:Assert", m.rectangles, (eps, epsA), objs
+            except Exception as ex:  # anything else is never allowed
+                return ("raised", type(ex).__name__), m.rectangles, (eps, epsA), objs
             if ret != m.has_stog and len(lst) > 0:
                 return ("has_stog-mismatch", ret), m.rectangles, (eps, epsA), objs
             return ret, m.rectangles, (eps, epsA), objs
@@ -176,6 +180,8 @@ def run_impl(route: str, rdicts, eps, epsA):
             ret = create_stog(lst)
         except AssertionError:
             return "err:Assert", lst, (eps, epsA), objs
+        except Exception as ex:  # anything else is never allowed
+            return ("raised", type(ex).__name__), lst, (eps, epsA), objs
         return ret, lst, (eps, epsA), objs
     finally:
         Rectangle.undefine_epsilon()
@@ -191,7 +197,11 @@ def one_list(ctx: Ctx, mode: str, route: str, eps, epsA, rdicts, reqs, todo, kin
     inp = {"mode": mode, "route": route, "eps": eps, "epsA": epsA, "rects": rdicts, "kind": kind}
     n = len(rdicts)
     if route == "netlist":
-        first, _, (e, ea), _ = run_impl(route, rdicts, eps, epsA)
+        try:
+            first, _, (e, ea), _ = run_impl(route, rdicts, eps, epsA)
+        except Exception as ex:
+            ctx.spec_fail("operation-raised", inp, {"raised": type(ex).__name__, "where": "Netlist load"}, n)
+            return
         has, roles, after = first
         # objects are created by the YAML reader: identity cannot be observed; compare values + roles with the model
         impl = f"{int(has)} " + str(n) + "".join(
@@ -208,7 +218,10 @@ def one_list(ctx: Ctx, mode: str, route: str, eps, epsA, rdicts, reqs, todo, kin
             impl = "err:Assert"
             tie = False
             if n > 0:
-                ctx.spec_fail("createStog:raises", inp, {"raised": "AssertionError"}, n)
+                ctx.spec_fail("operation-raised", inp, {"raised": "AssertionError"}, n)
+        elif isinstance(ret, tuple) and ret[0] == "raised":
+            ctx.spec_fail("operation-raised", inp, {"raised": ret[1]}, n)
+            return
         elif isinstance(ret, tuple):
             ctx.spec_fail("Module.has_stog-vs-create_stog", inp, {"create_stog": ret[1]}, n)
             return
@@ -319,6 +332,10 @@ def gen_list(rng, mode: str, eps: float):
         out = [trunk, _rd(tx0, ty1, tx1, ty1 + depth)] if rng.random() < 0.5 else [trunk, _rd(tx1, ty0, tx1 + depth, ty1)]
         if rng.random() < 0.4:
             out.append(_rd(tx0, ty0 - 1.0, tx0 + u, ty0))  # a branch that fits only the first
+    if kind == "twotrunks" and rng.random() < 0.5:
+        # twins: two rectangles of the same size side by side (equal areas: the `break` of the candidate loop decides)
+        out = [trunk, _rd(tx1, ty0, tx1 + tw, ty1)] if rng.random() < 0.5 else [trunk, _rd(tx0, ty1, tx1, ty1 + th)]
+        kind = "twins"
     if kind == "chain":
         out = [trunk, _rd(tx0, ty1, tx1, ty1 + 1.0), _rd(tx0, ty1 + 1.0, tx1, ty1 + 2.0)]
     if kind == "stog" and len(out) > 1 and rng.random() < 0.25:     # by destruction: drop / move one
@@ -351,7 +368,7 @@ def orders(rng, rects, max_full: int):
 def findloc_cases(ctx: Ctx, reqs, todo) -> None:
     """`find_location` alone: trunk vs a rectangle sliding around it at ε-resolution (Q stream)."""
     rng = ctx.rng
-    for _ in range(ctx.n(1500, 40000)):
+    for _ in range(ctx.n(5000, 100000)):
         eps = rng.choice([0.125, 0.03125, 0.25])
         epsA = rng.choice([0.0, 0.015625, 0.25, 1.0])
         g = eps / 2
@@ -377,6 +394,9 @@ def findloc_cases(ctx: Ctx, reqs, todo) -> None:
         Rectangle.set_epsilon(eps, epsA)
         try:
             got = LOC[_mk(t).find_location(_mk(r)).name]
+        except Exception as ex:
+            ctx.spec_fail("operation-raised", inp, {"raised": type(ex).__name__, "where": "find_location"}, 2)
+            continue
         finally:
             Rectangle.undefine_epsilon()
         boxes = [bb(t), bb(r)]
@@ -405,7 +425,7 @@ def run(ctx: Ctx) -> None:
         if inp.get("route") in ("func", "module", "netlist"):
             one_list(ctx, inp["mode"], inp["route"], inp["eps"], inp["epsA"], inp["rects"], reqs, todo, "seed")
     max_full = 4 if ctx.tier == "quick" else 5
-    for i in range(ctx.n(700, 12000)):
+    for i in range(ctx.n(2200, 30000)):
         mode = "Q" if i % 3 != 2 else "F"
         if mode == "Q":
             eps = rng.choice([0.125, 0.125, 0.03125, 0.0009765625])
@@ -422,7 +442,11 @@ def run(ctx: Ctx) -> None:
             e, ea = eps, epsA
             if route == "netlist" and mode == "F" and rng.random() < 0.5:
                 e = ea = None           # let Netlist define the tolerances
-            one_list(ctx, mode, route, e, ea, [dict(d) for d in order], reqs, todo, kind)
+            lst = [dict(d) for d in order]
+            if route != "netlist" and rng.random() < 0.3:
+                for d in lst:
+                    d["loc"] = rng.choice("TNSEWX")
+            one_list(ctx, mode, route, e, ea, lst, reqs, todo, kind)
     one_list(ctx, "Q", "func", 0.125, 0.25, [], reqs, todo, "empty")
     findloc_cases(ctx, reqs, todo)
     replies = ctx.model(reqs)
